@@ -122,7 +122,7 @@ theorem extStep_spec (c : Cursor) (st : LoopSt) (hi : c.Inv) (hcur : st.cur < 25
           rcases Cursor.skip_spec c2 ((l + 1) * 8 - 2) i2 with ⟨c3, e3, i3, s3, _⟩ | ⟨e3, hlt⟩
           · left
             simp only [e3, pure]
-            refine ⟨c3, _, rfl, i3, by omega, ht, Nat.mod_lt _ (by decide), ⟨st.cur, (l + 1) * 8 - 2, d⟩, rfl, ?_, rfl⟩
+            refine ⟨c3, _, rfl, i3, by omega, ht, by simp only [sub32]; omega, ⟨st.cur, (l + 1) * 8 - 2, d⟩, rfl, ?_, rfl⟩
             refine ⟨⟨hcur, ?_, ?_⟩, ?_, ?_, ?_⟩ <;> simp only [hdl] <;> omega
           · omega
         · right; simp [ea]
